@@ -4,10 +4,10 @@ wt=/tmp/seedwt-d
 git -C $wt checkout -q -- . ; git -C $wt clean -fdq; git -C $wt checkout -q --detach main
 git -C $wt apply /verif/seeded/$1/patch.diff || { echo "patch does not apply"; exit 2; }
 s=$1; shift
-cd /tmp/verif-dev
+cd /verif
 for id in "$@"; do
   out=$(VERIF_REPO=$wt ./check $id --tier quick 2>&1); rc=$?
   echo "$s $id rc=$rc $(echo "$out" | grep -c '^VIOLATION') violations; $(echo "$out" | tail -1 | cut -c1-150)"
 done
-rm -f /tmp/verif-dev/replays/*/viol-*.json
+rm -f /verif/replays/*/viol-*.json
 git -C $wt checkout -q -- . ; git -C $wt clean -fdq; git -C $wt checkout -q --detach main
